@@ -552,10 +552,20 @@ class IMAPClient:
                         )
                         self.ibuffer = []
                         self.ibuffer_size = 0
-                        # Drain the line terminator that follows the
-                        # literal declaration so we stay in sync.
+                        # The line terminator after the literal declaration
+                        # was already consumed by the `readuntil()` above.
+                        # For a synchronizing literal the client waits for
+                        # our go-ahead, gets the BAD instead and sends
+                        # nothing more of this command: whatever comes next
+                        # is its next command and must not be swallowed.
                         #
-                        await self.reader.readuntil(self.LINE_TERMINATOR)
+                        # A non-synchronizing literal ("{n+}") is already on
+                        # its way and we will not read that much just to
+                        # discard it: the only way to stay in sync is to
+                        # drop the connection (RFC 7888, section 4).
+                        #
+                        if m.group(2):
+                            client_connected = False
                         continue
 
                     # If this is a synchronizing string literal (does not have
